@@ -702,7 +702,7 @@ class FormatToken(str):
         return self
 
     def count(self, sub, *a):
-        if self.spec == "b" and sub == "1" and not a and self.sym.lo >= 0:
+        if self.spec == "b" and sub == "1" and not a:  # format(-5, "b") == "-101": the digits of the magnitude
             return self.sym.bit_count()
         raise Unsupported(f"count({sub!r}) on format token {self.spec!r}")
 
